@@ -724,10 +724,21 @@ def _guards_from_test(test: ast.AST) -> tuple[tuple, tuple]:
         for v in test.values:
             f += _guards_from_test(v)[1]
         return (), f
+    if isinstance(test, ast.Compare) and len(test.ops) == 2:
+        # 0 <= i < len(x)
+        a, b, c = test.left, test.comparators[0], test.comparators[1]
+        if isinstance(test.ops[0], ast.LtE) and isinstance(a, ast.Constant) and a.value == 0 and isinstance(test.ops[1], ast.Lt) and isinstance(c, ast.Call) and isinstance(c.func, ast.Name) and c.func.id == "len" and c.args:
+            return (("ge0", ast.unparse(b)), ("lt", ast.unparse(b), ast.unparse(c.args[0]))), ()
     if isinstance(test, ast.Compare) and len(test.ops) == 1:
         l, op, r = test.left, test.ops[0], test.comparators[0]
         if isinstance(op, ast.Lt) and isinstance(r, ast.Call) and isinstance(r.func, ast.Name) and r.func.id == "len" and r.args:
             return (("lt", ast.unparse(l), ast.unparse(r.args[0])),), ()
+        if isinstance(op, ast.GtE) and isinstance(r, ast.Constant) and r.value == 0:
+            return (("ge0", ast.unparse(l)),), ()
+        if isinstance(op, ast.LtE) and isinstance(l, ast.Constant) and l.value == 0:
+            return (("ge0", ast.unparse(r)),), ()
+        if isinstance(op, ast.Lt) and isinstance(r, ast.Constant) and r.value == 0:
+            return (), (("ge0", ast.unparse(l)),)
         if isinstance(op, ast.Gt) and isinstance(l, ast.Call) and isinstance(l.func, ast.Name) and l.func.id == "len" and l.args:
             if isinstance(r, ast.Constant) and isinstance(r.value, int) and r.value >= 0:
                 return (("truthy", ast.unparse(l.args[0])),), ()
@@ -782,7 +793,10 @@ def _guarded_subscript(base: str, idx: ast.AST, guards: tuple, recv_t: list[str]
     it = ast.unparse(idx)
     for g in guards:
         if g[0] == "lt" and g[1] == it and g[2] == base:
-            return True
+            # an upper bound alone does not protect a negative index (x[-1] of an empty x raises):
+            # the index must also be known to be non-negative
+            if _nonneg_index(idx, guards):
+                return True
         if g[0] == "in" and g[1] == it and g[2] == base:
             return True
     if isinstance(idx, ast.Constant) and idx.value in (0, -1) and _truthy_guard(base, guards):
@@ -795,6 +809,24 @@ def _guarded_subscript(base: str, idx: ast.AST, guards: tuple, recv_t: list[str]
     if isinstance(idx, ast.UnaryOp) and isinstance(idx.op, ast.USub) and isinstance(idx.operand, ast.Constant) and idx.operand.value == 1 and _truthy_guard(base, guards):
         return True
     return False
+
+
+NONNEG_NAMES = ("self.pos", "state.pos", "self.start", "i", "j", "k", "index", "idx", "n")
+
+
+def _nonneg_index(idx: ast.AST, guards: tuple) -> bool:
+    """Is the index expression known not to be negative?  Scanner / state cursors and loop counters are (they start
+    at 0 and only grow); anything else needs an explicit lower-bound test on the path."""
+    it = ast.unparse(idx)
+    if isinstance(idx, ast.Constant) and isinstance(idx.value, int):
+        return idx.value >= 0
+    if it in NONNEG_NAMES:
+        return True
+    if isinstance(idx, ast.BinOp) and isinstance(idx.op, ast.Add) and _nonneg_index(idx.left, guards) and _nonneg_index(idx.right, guards):
+        return True
+    if isinstance(idx, ast.Call) and isinstance(idx.func, ast.Name) and idx.func.id == "len":
+        return True
+    return any(g[0] == "ge0" and g[1] == it for g in guards)
 
 
 def _is_enumerate_like(v: ast.AST) -> bool:
